@@ -1,5 +1,6 @@
 import IkeProofs.Refine.Transfer
 import IkeProofs.RefineEap.Glue
+import IkeProofs.RefineReg.Cbc
 import IkeProofs.Theorems.C04
 
 /-! # C04 over the code as translated from the current source
@@ -61,5 +62,11 @@ theorem C04_gen_AKA_Unmarshal_never_faults (b : Bytes) : Gen.eap.EapAkaPrime.Unm
   have h : (Gen.eap.EapAkaPrime.Unmarshal {} b).map GenAbs.absAka ≠ .fault := by
     rw [EapAkaPrime_Unmarshal_refines]; exact (C04_no_fault_eap_methods b).2.2
   exact Ike.Refine.map_ne_fault h
+
+/-- `encr.(*EncrAesCbcCrypto).Decrypt` as translated from `security/encr/encr_aes_cbc.go`: no octet string and no
+key makes it panic (the index `plainText[len-1]` and the final reslice are inside their bounds on every path) -/
+theorem C04_gen_cbc_Decrypt_never_faults (P : Prims) (hP : P.Lawful) (c : Gen.encr.EncrAesCbcCrypto)
+    (hi : c.Iv = []) (ct : Bytes) : Gen.encr.EncrAesCbcCrypto.Decrypt P c ct ≠ .fault := by
+  rw [Ike.RefineReg.Decrypt_refines P hP c hi ct]; exact cbcDecrypt_ne_fault P hP _ ct
 
 end Ike
